@@ -509,6 +509,7 @@ pub fn run(tier: Tier, seed: u64) -> i32 {
                     (false, Ok(_)) => report.violation(Violation { signature: "C02|server-accepts-confusable-credentials".into(), scenario: "confusable-credentials".into(), replay, detail: json!({"message": format!("the server accepted a client that typed {tu:?} / {tp:?} for the account registered as {ru:?} / {rp:?}: these are different credentials")}) }),
                     (true, Err(e)) => report.violation(Violation { signature: "C02|right-credentials-refused".into(), scenario: "confusable-credentials".into(), replay, detail: json!({"message": format!("typed credentials equal to the registered ones up to letter case were refused: {e:?}")}) }),
                     (false, Err(LoginFail::Rng(m))) => mc::util::machinery_error(&format!("C02 confusable credentials: {m}")),
+                    (_, Err(LoginFail::Redrawn)) => {}
                     (false, Err(e)) => report.violation(Violation { signature: "C02|wrong-credentials-not-refused-by-the-server".into(), scenario: "confusable-credentials".into(), replay, detail: json!({"message": format!("a client with different credentials did not end in the server's refusal but in {e:?}")}) }),
                 }
             }
